@@ -31,7 +31,7 @@ RULE = ('one evaluation = one sampled cache (Cache or FanoutCache shards; 4-14 i
         'remaining item is read back and compared; non-trivial = at least one damage item applied; distinct = SHA-256 of (cache '
         'program, damage list)')
 ASSUMPTIONS = ['damage is applied while no operation is in flight', 'truncation of text happens on a code-point boundary and extension appends ASCII, except in the low-rate probe of known finding F14']
-PROBES = ('damage_items', 'fanout_runs', 'rows_removed_by_fix', 'f14_probe', 'dir_spelled_dot', 'dir_spelled_double', 'dir_spelled_trailing', 'dir_spelled_dotdot', 'dir_spelled_relative', 'more_than_100_file_rows', 'journal_mode_not_wal')
+PROBES = ('damage_items', 'fanout_runs', 'rows_removed_by_fix', 'f14_probe', 'dir_spelled_dot', 'dir_spelled_double', 'dir_spelled_trailing', 'dir_spelled_dotdot', 'dir_spelled_relative', 'more_than_100_file_rows', 'journal_mode_not_wal', 'mass_loss')
 TECHNIQUE = 'deterministic simulation with out-of-band damage injection: damage-kind subsets enumerated per sampled cache; report / convergence / undamaged-intact oracle with an independent auditor'
 LEVEL_TEXT = ('fault enumeration over damage-kind subsets: caches are sampled by seed, and for each cache every non-empty subset of the '
               'seven damage kinds is applied (thorough tier); the oracle knows exactly what it damaged and compares the two warning lists per '
@@ -68,7 +68,13 @@ def gen_case(seed, tier):
             items.append({'k': 'm%03d' % i, 'v': {'big': ['bytes', mfs + 4, 'm%d' % i]}})
         rng.shuffle(items)
         fanout = False
-    cfg = {'fanout': fanout, 'shards': rng.choice((2, 3)), 'mfs': mfs, 'f14': rng.random() < 0.03, 'many': len(items) > 100,
+    mass = 0
+    if rng.random() < 0.012:
+        # a tmp cleaner has removed EVERY value file of a big cache, on an SQLite that binds at most 999 parameters per statement
+        mass = rng.choice((1001, 1300))
+        items = [{'k': 'm%04d' % i, 'v': {'big': ['bytes', mfs + 4, 'm%d' % i]}} for i in range(mass)] + items[:3]
+        fanout = False
+    cfg = {'fanout': fanout, 'shards': rng.choice((2, 3)), 'mfs': mfs, 'f14': rng.random() < 0.03, 'many': len(items) > 100, 'mass_loss': mass,
            # SQLite keeps other files next to cache.db under the other (documented) journal modes
            'journal': rng.choice(('wal', 'wal', 'wal', 'truncate', 'persist', 'delete')),
            # how the caller spells the directory: check() compares paths it builds from rows with paths it finds by walking
@@ -108,6 +114,8 @@ def run_case(case):
     violations = []
     probes = {}
     world = World(case['seed'], clock={'mode': 'frozen'}, yield_clock=False)
+    if cfg.get('mass_loss'):
+        world.sim.var_limit = 999
     cwd = os.getcwd()
     try:
         dc = world.dc
@@ -136,6 +144,28 @@ def run_case(case):
         cancel = {}     # cache dir -> {'count': .., 'size': ..}: what check(fix=True) will change through its row repairs
         report = []     # (category, path substring) that must be reported
         used_files = set()
+        if cfg.get('mass_loss'):
+            # every value file of the 'm...' items is gone: each is reported as not found and its row removed by the repair
+            probes['mass_loss'] = 1
+            cache = caches[0]
+            root = cache.directory
+            rv = RawView(root)
+            for r in rv.rows():
+                if r[10] is None:
+                    continue
+                key = cache.disk.get(r[1], r[2])
+                if not (isinstance(key, str) and key.startswith('m') and len(key) == 5):
+                    continue
+                full = os.path.join(root, r[10])
+                acc = cancel.setdefault(root, {'count': 0, 'size': 0})
+                acc['count'] -= 1
+                acc['size'] -= os.path.getsize(full)
+                os.remove(full)
+                used_files.add((root, r[10]))
+                damaged_keys.add(fp(key))
+                report.append(('file not found', r[10]))
+                expected.pop(fp(key), None)
+            rv.close()
         for d in case['damage']:
             ci = int(d['pick'] * len(caches)) % len(caches)
             cache = caches[ci]
@@ -341,6 +371,8 @@ def run_seed(seed, tier):
     if tier == 'quick':
         subsets = rng.sample(subsets, 10)
     subsets.insert(0, ())      # no damage at all: check() must report nothing and change nothing
+    if case['cfg'].get('mass_loss'):
+        subsets = [(), tuple(rng.sample(KINDS, 2))]      # the mass loss itself is the damage; these caches are slow to build
     results = []
     for i, kinds in enumerate(subsets):
         c = copy.deepcopy(case)
